@@ -40,6 +40,11 @@ type advWorld struct {
 	subID    channel.ID         // the sub-channel of points "subopen" / "subsettled"
 	subCur   *channel.State     // H's current state of it
 	hasSub   bool
+	// point "hub": H is the hub of the funded virtual channel vparams between P and X
+	hubW     *vWorld
+	xid      channel.ID
+	vparams  *channel.Params
+	vparams2 *channel.Params
 }
 
 func (a *advWorld) refresh() {
@@ -54,6 +59,19 @@ func (a *advWorld) refresh() {
 			a.subCur = e.Cur.State.Clone()
 		}
 	}
+}
+
+// curOf returns H's current state of channel id (nil if none).
+func (a *advWorld) curOf(id channel.ID) *channel.State {
+	a.w.PMu.Lock()
+	defer a.w.PMu.Unlock()
+	var st *channel.State
+	for _, e := range a.w.PLog {
+		if e.Who == "H" && e.Ch == id && e.Kind == "enabled" && e.Cur.State != nil {
+			st = e.Cur.State.Clone()
+		}
+	}
+	return st
 }
 
 func sign(acc wallet.Account, s *channel.State) wallet.Sig {
@@ -258,6 +276,22 @@ func (a *advWorld) craft(class string, n int) (wire.Msg, map[wallet.BackendID]wi
 		b := baseProp("ledger")
 		b.Sender = "I"
 		return prop(b, x), P
+	}
+	// ---- H is the hub of a virtual channel between P and X ----
+	if a.hubW != nil {
+		hm := vfMsg{Arrive: "both", Side: "-", PSig: "valid", Ver: 1, Amount: "exact", IMap: "ok", VSigs: "both", VState: "same", VFlag: true, VParts: "ab", Move: "exact"}
+		side, sender := "A", P
+		if strings.HasPrefix(class, "x-") {
+			side, sender = "B", S
+		}
+		switch strings.TrimSuffix(strings.TrimSuffix(class[2:], "-late"), "-lone") {
+		case "vsettle": // the final state 3 / 1 of the funded virtual channel, signed by both end points
+			hm.Sit, hm.VFinal = "vsettle", true
+			return a.hubW.proposal(hm, side, false, a.vparams, a.hubW.vState(hm, a.vparams, 3, 1, 1, true, "-")), sender
+		case "vfund2": // a second virtual channel 1 / 1
+			hm.Sit = "vfund"
+			return a.hubW.proposal(hm, side, true, a.vparams2, a.hubW.vState(hm, a.vparams2, 1, 1, 0, false, "-")), sender
+		}
 	}
 	// ---- responses to H's own proposal in flight ----
 	if a.pending != nil {
@@ -467,6 +501,35 @@ func runAdversaryCase(t *testing.T, c *advCase, proto bool, idx int) (what, clas
 					what, class = "setup: unexpected parent state", "setup"
 					return
 				}
+			case "hub":
+				_, chHX, err := w.OpenLedgerChannel(a.x, h, 60, 10, 10)
+				if err != nil {
+					what, class = "setup: "+err.Error(), "setup"
+					return
+				}
+				a.xid = chHX.ID()
+				v := &vWorld{w: w, h: h, a: p, b: a.x, x: a.x, pid: map[string]channel.ID{"A": a.parentID, "B": a.xid}}
+				mk := func(n int64) *channel.Params {
+					return channel.NewParamsUnsafe(60, []map[wallet.BackendID]wallet.Address{p.WalletAddr(), a.x.WalletAddr()},
+						channel.NoApp(), big.NewInt(9000+n+int64(idx)), false, true, channel.ZeroAux)
+				}
+				a.vparams, a.vparams2 = mk(1), mk(2)
+				hm := vfMsg{Sit: "vfund", Arrive: "both", Side: "-", PSig: "valid", Ver: 1, Amount: "exact", IMap: "ok", VSigs: "both", VState: "same", VFlag: true, VParts: "ab", Move: "exact"}
+				ss := v.vState(hm, a.vparams, 2, 2, 0, false, "-")
+				pa, pb := v.proposal(hm, "A", true, a.vparams, ss), v.proposal(hm, "B", true, a.vparams, ss)
+				_ = w.Bus.Inject(&wire.Envelope{Sender: p.WireAddr(), Recipient: h.WireAddr(), Msg: pa})
+				w.Quiesce()
+				_ = w.Bus.Inject(&wire.Envelope{Sender: a.x.WireAddr(), Recipient: h.WireAddr(), Msg: pb})
+				w.Sleep(time.Second)
+				if !v.signedByHub(pa) || !v.signedByHub(pb) {
+					what, class = "setup: the hub did not accept the honest funding of the virtual channel", "setup"
+					return
+				}
+				a.hubW = v
+				a.refresh()
+				w.Bus.mu.Lock()
+				w.Bus.Pending = nil
+				w.Bus.mu.Unlock()
 			case "handling": // an honest update of P is with H's handler, not answered yet
 				go func() {
 					_ = chP.Update(ctx, func(s *channel.State) {
@@ -484,6 +547,9 @@ func runAdversaryCase(t *testing.T, c *advCase, proto bool, idx int) (what, clas
 		// ---- the adversarial sequence ----
 		w.Bus.Proto = proto
 		for n, cl := range c.Seq {
+			if strings.HasSuffix(cl, "-late") { // sent only after the hub's matching time-out (10 s) has fired
+				w.Sleep(11 * time.Second)
+			}
 			msg, sender := a.craft(cl, n)
 			if msg == nil {
 				continue
@@ -556,41 +622,49 @@ func runAdversaryCase(t *testing.T, c *advCase, proto bool, idx int) (what, clas
 		w.Bus.Pending = nil
 		w.Bus.mu.Unlock()
 		// ---- probe 1: an honest request of the counterparty, consistent with H's state, is handled in bounded time ----
-		a.refresh()
-		st := a.cur.Clone()
-		st.Version++
-		st.Balances[0][0] = new(big.Int).Sub(st.Balances[0][0], big.NewInt(1))
-		st.Balances[0][1] = new(big.Int).Add(st.Balances[0][1], big.NewInt(1))
-		probeMsg := &client.ChannelUpdateMsg{ChannelUpdate: client.ChannelUpdate{State: st, ActorIdx: 0}, Sig: sign(p.Acc, st)}
-		if a.cur.IsFinal {
-			return
-		}
-		_ = w.Bus.Inject(&wire.Envelope{Sender: p.WireAddr(), Recipient: h.WireAddr(), Msg: probeMsg})
-		w.Quiesce()
-		u := h.TakeUpdateFor(a.parentID)
-		if u == nil {
-			w.Sleep(61 * time.Second)
-			u = h.TakeUpdateFor(a.parentID)
-		}
-		if u == nil {
-			what, class = "after the sequence an honest, valid update request of the counterparty does not reach H's handler within 60 s: the channel is locked", "probe-in-locked"
-			return
-		}
-		go func() { _ = u.Resp.Accept(ctx) }()
-		w.Quiesce()
-		answered := w.Bus.Find(func(e *wire.Envelope) bool {
-			acc, ok := e.Msg.(*client.ChannelUpdateAccMsg)
-			return ok && acc.ChannelID == a.parentID && acc.Version == st.Version
-		}) >= 0
-		if !answered {
-			w.Sleep(61 * time.Second)
-			answered = w.Bus.Find(func(e *wire.Envelope) bool {
+		probeIn := func(id channel.ID, peer *Party, name string) bool {
+			cur := a.curOf(id)
+			if cur == nil || cur.IsFinal {
+				return true
+			}
+			st := cur.Clone()
+			st.Version++
+			st.Balances[0][0] = new(big.Int).Sub(st.Balances[0][0], big.NewInt(1))
+			st.Balances[0][1] = new(big.Int).Add(st.Balances[0][1], big.NewInt(1))
+			probeMsg := &client.ChannelUpdateMsg{ChannelUpdate: client.ChannelUpdate{State: st, ActorIdx: 0}, Sig: sign(peer.Acc, st)}
+			_ = w.Bus.Inject(&wire.Envelope{Sender: peer.WireAddr(), Recipient: h.WireAddr(), Msg: probeMsg})
+			w.Quiesce()
+			u := h.TakeUpdateFor(id)
+			if u == nil {
+				w.Sleep(61 * time.Second)
+				u = h.TakeUpdateFor(id)
+			}
+			if u == nil {
+				what, class = "after the sequence an honest, valid update request of the counterparty"+name+" does not reach H's handler within 60 s: the channel is locked", "probe-in-locked"
+				return false
+			}
+			go func() { _ = u.Resp.Accept(ctx) }()
+			w.Quiesce()
+			isAcc := func(e *wire.Envelope) bool {
 				acc, ok := e.Msg.(*client.ChannelUpdateAccMsg)
-				return ok && acc.ChannelID == a.parentID && acc.Version == st.Version
-			}) >= 0
+				return ok && acc.ChannelID == id && acc.Version == st.Version
+			}
+			answered := w.Bus.Find(isAcc) >= 0
+			if !answered {
+				w.Sleep(61 * time.Second)
+				answered = w.Bus.Find(isAcc) >= 0
+			}
+			if !answered {
+				what, class = "after the sequence H does not answer an honest, valid update request"+name+" it accepted within 60 s", "probe-in-unanswered"
+				return false
+			}
+			return true
 		}
-		if !answered {
-			what, class = "after the sequence H does not answer an honest, valid update request it accepted within 60 s", "probe-in-unanswered"
+		a.refresh()
+		if !probeIn(a.parentID, p, "") {
+			return
+		}
+		if a.hubW != nil && !probeIn(a.xid, a.x, " (second end point of the virtual channel)") {
 			return
 		}
 		// ---- probe 2: H's own API call returns in bounded time and does not find the channel locked ----
